@@ -364,8 +364,9 @@ class MarkdownNormalizer(Renderer):
         if self._list_spacing == ListSpacing.preserve:
             is_tight = element.tight
         elif self._list_spacing == ListSpacing.tight:
-            # Only make tight if the list can be tight (no multi-paragraph items)
-            is_tight = self._can_be_tight(element)
+            # Make tight if the list can be tight (no multi-paragraph items); a list that
+            # cannot be tightened keeps its authored spacing instead of being made loose.
+            is_tight = self._can_be_tight(element) or element.tight
         else:  # loose
             is_tight = False
 
